@@ -79,7 +79,7 @@ Lemma emit_out mw i st : snd (emit mw i st) = sp (pre_sp mw st i) ++ text i ++ s
 Proof.
   destruct i as [s|s|b f|o|s| | | | | | | |]; unfold emit, pre_sp, post_sp, text.
   - rewrite seq_snd, psbi_snd, pr_snd. simpl. rewrite app_nil_r. reflexivity.
-  - rewrite !seq_snd, psbi_snd, pr_snd. simpl. rewrite !app_nil_r. reflexivity.
+  - rewrite !seq_snd, psbi_snd, pr_snd. destruct (no_dex s); simpl; rewrite !app_nil_r; reflexivity.
   - rewrite !seq_snd, pr_snd. simpl snd at 2. rewrite !app_nil_r.
     destruct ((lastc st =? 47) || _); reflexivity.
   - destruct (op_kind o) eqn:Ek.
@@ -108,7 +108,8 @@ Qed.
 (* ---- the state an emission leaves ---- *)
 Definition natural_mark (i : item) : mark :=
   match i with
-  | INum _ => MNum | IRe _ _ => MRe
+  | INum s => if no_dex s then MNum else MNone
+  | IRe _ _ => MRe
   | IOp o => if op_is_keyword o then MNone else MOp o
   | _ => MNone
   end.
@@ -127,7 +128,8 @@ Proof.
   intro Hne. unfold after.
   destruct i as [s|s|b f|o|s| | | | | | | |]; unfold emit, post_sp, text, natural_mark in *.
   - rewrite seq_fst, pr_fst by exact Hne. split; reflexivity.
-  - rewrite !seq_fst, set_mark_fst, pr_fst by exact Hne. split; reflexivity.
+  - destruct (no_dex s); [rewrite !seq_fst, set_mark_fst, pr_fst by exact Hne; split; reflexivity|].
+    rewrite seq_fst. unfold nop. simpl fst. rewrite seq_fst, pr_fst by exact Hne. split; reflexivity.
   - rewrite !seq_fst, set_mark_fst, pr_fst by discriminate. split; reflexivity.
   - pose proof (op_text_nonempty o) as Ho.
     destruct (op_kind o) eqn:Ek.
@@ -316,8 +318,7 @@ Lemma text_ok i : item_ok i -> text i <> [] /\ hdz (text i) <> 32.
 Proof.
   destruct i as [s|s|b f|o|s| | | | | | | |]; simpl; intro H.
   - destruct H as [Hw _]. destruct (word_shape_hd s Hw) as [Hne Hs]. split; [exact Hne|]. apply id_start_facts in Hs. tauto.
-  - destruct H as [Hne Hall]. split; [exact Hne|]. destruct s as [|c s']; [congruence|]. simpl in *.
-    apply andb_true_iff in Hall as [Hc _]. apply digit_facts in Hc. unfold id_part, id_start, digit in Hc. lia.
+  - destruct (num_hd s H) as (c & s' & E & Hc). subst s. split; [discriminate|]. simpl. unfold digit in Hc. lia.
   - split; [discriminate | lia].
   - destruct (op_facts o) as (_ & Fn & Fk). split; [apply op_text_nonempty|].
     destruct (op_is_keyword o) eqn:Ew.
@@ -347,7 +348,7 @@ Qed.
 Definition need (ls : bool) (i : item) (c : Z) : bool :=
   match i with
   | IId _ | IDot _ | IRe _ _ => negb (id_part c) && negb (c =? 92)
-  | INum _ => negb (id_part c) && negb (c =? 46)
+  | INum s => negb (id_part c) && (negb (no_dex s) || negb (c =? 46))
   | IOp o => if op_is_keyword o then negb (id_part c) && negb (c =? 92) else negb (memz c (hazard_chars ls (op_text o)))
   | IOpen => negb (memz c (hazard_chars ls [40]))
   | IClose => negb (memz c (hazard_chars ls [41]))
@@ -363,7 +364,7 @@ Lemma need_trivial ls i c : c = 32 \/ c = -1 -> need ls i c = true.
 Proof.
   intros Hc. destruct i as [s|s|b f|o|s| | | | | | | |]; simpl.
   - destruct Hc; subst; reflexivity.
-  - destruct Hc; subst; reflexivity.
+  - destruct Hc; subst; simpl; rewrite orb_true_r; reflexivity.
   - destruct Hc; subst; reflexivity.
   - destruct (op_facts o) as (Fh & _ & _). destruct (Fh ls) as (A & B & _).
     destruct (op_is_keyword o); [destruct Hc; subst; reflexivity|].
@@ -424,11 +425,8 @@ Proof.
 Qed.
 Lemma num_last s : num_shape s -> is_id_part (last s 0) = true /\ id_part (hdz s) = true.
 Proof.
-  intros [Hne Hall]. assert (A : forall c, In c s -> id_part c = true).
-  { intros c Hin. rewrite forallb_forall in Hall. specialize (Hall c Hin). apply digit_facts in Hall. tauto. }
-  split.
-  - apply A. apply (@exists_last _ s) in Hne as [l' [a E]]. rewrite E, last_last. apply in_or_app. right. left. reflexivity.
-  - apply A. destruct s; [congruence | left; reflexivity].
+  intro H. split; [rewrite id_part_same; apply num_last_idpart; exact H|].
+  destruct (num_hd s H) as (c & s' & E & Hc). subst s. simpl. apply digit_id_part. exact Hc.
 Qed.
 
 (* ---- the follower of every item is harmless (pair level) ---- *)
@@ -507,8 +505,11 @@ Proof.
       rewrite Hesc, after_esc_id; [exact Hl | destruct (word_shape_hd s Hs); assumption]. }
     destruct (OPER (last s 0) MNone eq_refl eq_refl Hhz Epre) as [A _]. exact A.
   - (* INum *) left. destruct (num_last s Hi) as [Hl _].
-    destruct (OPER (last s 0) MNum eq_refl eq_refl (or_introl Hl) Epre) as [A B]. simpl need.
-    apply andb_true_iff in A as [A _]. rewrite A, (B eq_refl). reflexivity.
+    simpl natural_mark in Epre. simpl need. destruct (no_dex s).
+    + destruct (OPER (last s 0) MNum eq_refl eq_refl (or_introl Hl) Epre) as [A B].
+      apply andb_true_iff in A as [A _]. rewrite A, (B eq_refl). reflexivity.
+    + destruct (OPER (last s 0) MNone eq_refl eq_refl (or_introl Hl) Epre) as [A _].
+      apply andb_true_iff in A as [A _]. rewrite A. reflexivity.
   - (* IRe *) left.
     destruct (OPER (last (text (IRe b f)) 0) MRe eq_refl eq_refl (or_intror (or_introl eq_refl)) Epre) as [A _]. exact A.
   - (* IOp *)
